@@ -133,8 +133,45 @@ def handleHttpRequest (isAllowed : Bool) (rendered : List Char) (path : List Cha
   else
     ⟨403, []⟩
 
-/-- `http::Uri::path` of an origin-form request target: everything before the first `?` -/
-def pathOf (target : List Char) : List Char := target.takeWhile (· ≠ '?')
+/-- the characters that end the path inside a path-and-query text: `?` starts the query, `#` a fragment
+    (`http::uri::PathAndQuery::from_shared` stops its path scan at either and cuts the text at `#`) -/
+def endsPath (c : Char) : Bool := c == '?' || c == '#'
+
+/-- `PathAndQuery::path` of the text after scheme and authority: everything before the first `?` or `#` -/
+def pathPart (pq : List Char) : List Char := pq.takeWhile (fun c => !endsPath c)
+
+/-- characters of a URI scheme (`http::uri::Scheme2::parse`: letters, digits, `+`, `-`, `.`) -/
+def isSchemeChar (c : Char) : Bool :=
+  ('a'.toNat ≤ c.toNat && c.toNat ≤ 'z'.toNat) || ('A'.toNat ≤ c.toNat && c.toNat ≤ 'Z'.toNat)
+    || ('0'.toNat ≤ c.toNat && c.toNat ≤ '9'.toNat) || c == '+' || c == '-' || c == '.'
+
+/-- the text after `scheme://` when the target starts with a scheme -/
+def afterScheme : List Char → Option (List Char)
+  | ':' :: '/' :: '/' :: rest => some rest
+  | c :: cs => if isSchemeChar c then afterScheme cs else none
+  | [] => none
+
+/-- characters that end the authority (`http::uri::Authority::parse` stops at `/`, `?`, `#`) -/
+def endsAuthority (c : Char) : Bool := c == '/' || endsPath c
+
+/-- `req.uri().path()` (`http::Uri::from_shared` + `Uri::path`) of the request target hyper hands to the service,
+    for every form of target that gets that far (anything `http::Uri` rejects is answered `400` by hyper itself):
+    * origin-form `/path[?query]` — and, since `httparse` lets `#` through, `/path[?query]#fragment`: the text before
+      the first `?` or `#`;
+    * asterisk-form `*`: the path is `*`;
+    * absolute-form `scheme://authority[/path][?query][#fragment]` (what a client talking through a proxy sends):
+      the path after the authority, `/` when there is none;
+    * anything else is authority-form (`host:port`): no path, `path()` returns the empty string. -/
+def pathOf (target : List Char) : List Char :=
+  match target with
+  | '/' :: _ => pathPart target
+  | ['*'] => ['*']
+  | _ =>
+    match afterScheme target with
+    | some rest =>
+      if (pathPart (rest.dropWhile (fun c => !endsAuthority c))).isEmpty then ['/']
+      else pathPart (rest.dropWhile (fun c => !endsAuthority c))
+    | none => []
 
 /-- the whole decision for one request of a connection from `peer` -/
 def respond (al : Option (List Net)) (peer : Addr) (path : List Char) (rendered : List Char) : Resp :=
@@ -362,6 +399,67 @@ def Ev2.isNoise : Ev2 → Bool
   | .fault _ _ => true
   | .acceptErr _ => true
   | _ => false
+
+/-! ### clients that half-close
+
+A client may write its complete request(s) and then shut down its WRITE side (`shutdown(SHUT_WR)`: the server reads
+EOF) while it keeps reading: `printf 'GET /metrics HTTP/1.1\r\nHost: x\r\n\r\n' | nc host 9000`, `socat`, HTTP/1.0-style
+clients, some health checkers.  Its requests are complete and well-formed; what the connection task does when it
+reads that EOF while a response is still owed is an option of hyper's HTTP/1 connection
+(`hyper::server::conn::http1::Builder::half_close`):
+* `half_close(true)`: `Conn::mid_message_detect_eof` stays `Pending`, the service future (for a rendering:
+  `spawn_blocking(handle.render()).await`) is polled to its end, every request read so far is answered, then the
+  connection is closed — the client is served like any other;
+* default (`half_close(false)`): `mid_message_detect_eof` reads the EOF, returns `Error::new_incomplete()`,
+  `Dispatcher::poll_loop` propagates it before `poll_write` is reached and the connection is dropped: responses not
+  yet written are never written.  Whether a response was already written when the EOF is seen is a race the client
+  loses whenever its FIN is in the socket before the answer is complete (always, for a rendering that takes time);
+  the model takes the schedule in which the EOF is seen first. -/
+
+/-- what the connection task does on reading EOF while a response is owed -/
+inductive EofAct
+  /-- `half_close(true)`: finish the answers, then close -/
+  | finish
+  /-- hyper's default: drop the connection (`IncompleteMessage`) -/
+  | drop
+  deriving DecidableEq, Repr, Inhabited
+
+/-- the connection options between `HyperHttpBuilder::new()` and `.serve_connection(..)` as read off the source -/
+def eofOfSource (opts : List String) : EofAct :=
+  if opts = ["half_close(true)"] then .finish else .drop
+
+/-- events at an endpoint, third layer: everything of the second layer plus the half-closing client -/
+inductive Ev3
+  /-- an event of the second layer -/
+  | ev (e : Ev2)
+  /-- a connection from `peer` whose client writes these complete, well-formed requests, then shuts down its write
+      side and reads the answers until the server closes -/
+  | halfClose (peer : Peer) (reqs : List Req)
+  deriving Repr, Inhabited
+
+/-- one event of the third layer.  `eof` is the option of the connection (`EofAct.finish` in the code after the C18
+    repair `half_close(true)`; `EofAct.drop` before it). -/
+def stepEv3 (arm : LoopAct) (eof : EofAct) (render : Nat → List Char) (s : Sess2) : Ev3 → Sess2 × List Resp
+  | .ev e => stepEv2 arm render s e
+  | .halfClose peer reqs =>
+    match eof with
+    | .finish => stepEv2 arm render s (.conn peer reqs)
+    | .drop => (s, [])
+
+/-- the answers of a third-layer history, one list per event -/
+def run3 (arm : LoopAct) (eof : EofAct) (render : Nat → List Char) (s : Sess2) : List Ev3 → List (List Resp)
+  | [] => []
+  | e :: es => (stepEv3 arm eof render s e).2 :: run3 arm eof render (stepEv3 arm eof render s e).1 es
+
+/-- the final state of a third-layer history -/
+def runState3 (arm : LoopAct) (eof : EofAct) (render : Nat → List Char) (s : Sess2) : List Ev3 → Sess2
+  | [] => s
+  | e :: es => runState3 arm eof render (stepEv3 arm eof render s e).1 es
+
+/-- the half-closing client seen as an ordinary connection (what it is when the option is `finish`) -/
+def Ev3.plain : Ev3 → Ev2
+  | .ev e => e
+  | .halfClose peer reqs => .conn peer reqs
 
 /-- a first-layer event seen at the second layer: a `GET` without headers from source port `port` -/
 def Ev.lift (port : Nat) : Ev → Ev2
